@@ -549,6 +549,59 @@ pub fn provenance_specs(nmax: usize) -> Vec<Spec> {
     v
 }
 
+/// Shapes up to `nmax` functions with one more node added through DerefMut after build().
+pub fn extra_node_specs(nmax: usize) -> Vec<Spec> {
+    shapes_upto(0, nmax, false)
+        .into_iter()
+        .map(|mut s| {
+            s.prov = 6;
+            s
+        })
+        .collect()
+}
+
+/// Inputs that reach the same graph in an unusual way: every edge given more than once
+/// (`Spec::redeclare` 1..4) and graph values of unusual provenance (`Spec::prov` 1..6).
+pub fn unusual_input_spaces(apis: Vec<Api>, with_streams: bool, limits: Vec<Option<usize>>) -> Vec<Space> {
+    let mut v = vec![];
+    let (a1, l1) = (apis.clone(), limits.clone());
+    v.push(space(
+        "every edge given more than once (again through the batch form with the same / the other kind, twice in a row, again with the other and then the listed kind), shapes 2<=n<=3",
+        {
+            let mut specs = vec![];
+            for s in shapes_upto(2, 3, false).into_iter().filter(|s| !s.edges.is_empty()) {
+                for r in 1u8..=4 {
+                    let mut t = s.clone();
+                    t.redeclare = r;
+                    specs.push(t);
+                }
+            }
+            specs
+        },
+        None,
+        move |s| {
+            let mut c = cfgs_plain(s.n, &a1, &l1, &REVS);
+            if with_streams {
+                c.extend(cfgs_stream_plain(&[SApi::Stream, SApi::StreamWith], &REVS, 0, false, false));
+            }
+            c
+        },
+    ));
+    v.push(space(
+        "graph values of unusual provenance (a clone, built on another thread, deref_mut() called, FnGraph::new() / default(), a node added through DerefMut after build()), shapes n<=3",
+        provenance_specs(3).into_iter().chain(extra_node_specs(3)).collect(),
+        None,
+        move |s| {
+            let mut c = cfgs_plain(s.n, &apis, &limits, &REVS);
+            if with_streams {
+                c.extend(cfgs_stream_plain(&SApi::all(), &REVS, 0, false, false));
+            }
+            c
+        },
+    ));
+    v
+}
+
 pub struct TaskOpts {
     pub futures: bool,
     pub streams: bool,
@@ -790,33 +843,10 @@ pub fn general_spaces(o: &GenOpts) -> Vec<Space> {
     v.push(space("second run on a graph value that an earlier run (either order, & / &mut) was completed on, 10 _with APIs x order, shapes 1<=n<=3", shapes_upto(1, 3, false), None, move |s| {
         cfgs_after_earlier_run(s.n, &Api::all_with(), with_streams)
     }));
-    v.push(space("every edge declared a second time through the batch form (same kind / other kind), shapes 2<=n<=3, 10 _with APIs x order, streams", {
-        let mut specs = vec![];
-        for s in shapes_upto(2, 3, false).into_iter().filter(|s| !s.edges.is_empty()) {
-            for r in [1u8, 2] {
-                let mut t = s.clone();
-                t.redeclare = r;
-                specs.push(t);
-            }
-        }
-        specs
-    }, None, move |s| {
-        let mut c = cfgs_plain(s.n, &Api::all_with(), &[None], &REVS);
-        if with_streams {
-            c.extend(cfgs_stream_plain(&[SApi::Stream, SApi::StreamWith], &REVS, 0, false, false));
-        }
-        c
-    }));
     v.push(space("StreamOpts builder methods called in every order (non-default values for all three settings), shapes 1<=n<=3", shapes_upto(1, 3, false), None, move |s| {
         cfgs_opts_orders(s.n, &Api::all_with(), &[None], with_streams)
     }));
-    v.push(space("graph values of unusual provenance (a clone, built on another thread, deref_mut() called, FnGraph::new() / default()), shapes n<=3, all 20 future methods x order, 4 streams", provenance_specs(3), None, move |s| {
-        let mut c = cfgs_plain(s.n, &Api::all(), &[None], &REVS);
-        if with_streams {
-            c.extend(cfgs_stream_plain(&SApi::all(), &REVS, 0, false, false));
-        }
-        c
-    }));
+    v.extend(unusual_input_spaces(Api::all(), with_streams, vec![None]));
     if o.n_stream > 0 {
         let st = o.strats.clone();
         v.push(space(&format!("streams (consumer explorer), shapes n<={}", o.n_stream), shapes_upto(nmin, o.n_stream, true), None, move |_| {
@@ -1146,6 +1176,7 @@ pub fn c05(tier: &str) -> (Vec<Space>, Focus) {
     v.push(space("stream on a graph value that an earlier run was completed on, shapes 1<=n<=3", shapes_upto(1, 3, false), None, |s| cfgs_after_earlier_run(s.n, &[], true)));
     v.extend(antichain_spaces(tier, AntiOpts { futures: false, streams: true, limits: vec![], limit_below_width: false, fail_antichain: false }));
     v.extend(tokio_task_spaces(tier, TaskOpts { futures: false, streams: true, fail_single: false, limits: vec![] }));
+    v.extend(unusual_input_spaces(vec![], true, vec![None]));
     v.push(space("StreamOpts builder methods called in every order, shapes 1<=n<=3", shapes_upto(1, 3, false), None, |s| {
         cfgs_opts_orders(s.n, &[], &[None], true)
     }));
@@ -1198,6 +1229,7 @@ pub fn c06(tier: &str) -> (Vec<Space>, Focus) {
     v.push(space("second run on a graph value that an earlier run was completed on, shapes 1<=n<=3", shapes_upto(1, 3, false), None, |s| cfgs_after_earlier_run(s.n, &conc_with(), true)));
     v.extend(antichain_spaces(tier, AntiOpts { futures: true, streams: true, limits: vec![None], limit_below_width: false, fail_antichain: false }));
     v.extend(tokio_task_spaces(tier, TaskOpts { futures: true, streams: true, fail_single: false, limits: vec![] }));
+    v.extend(unusual_input_spaces(conc_with(), true, vec![None]));
     v.extend(large_irregular_spaces(tier, true, true, true));
     v.push(space("StreamOpts builder methods called in every order, shapes 1<=n<=3", shapes_upto(1, 3, false), None, |s| {
         cfgs_opts_orders(s.n, &conc_with(), &[None], true)
@@ -1379,6 +1411,7 @@ pub fn c10(tier: &str) -> (Vec<Space>, Focus) {
     v.extend(mid_spaces(tier, true, false, Some(2)));
     v.extend(antichain_spaces(tier, AntiOpts { futures: true, streams: false, limits: vec![Some(1), Some(2), Some(3), Some(5)], limit_below_width: true, fail_antichain: false }));
     v.extend(tokio_task_spaces(tier, TaskOpts { futures: true, streams: false, fail_single: false, limits: vec![Some(1), Some(2), Some(50)] }));
+    v.extend(unusual_input_spaces(Api::all().into_iter().filter(|a| a.concurrent()).collect(), false, vec![Some(1), Some(2)]));
     v.extend(all_methods_spaces(tier, true, false));
     v.extend(n5_space(tier, &[Some(1), Some(2), Some(3)]));
     let focus = Focus {
